@@ -58,7 +58,7 @@ def iter_spec(rng: random.Random, name: str, maxlen: int = 8) -> dict:
     if name in RAW_ANY_TOOLS and not spec.get("raw") and rng.random() < 0.12:
         # plain values incl. None / falsy ones: nothing but identity may serve as a "no item" marker
         spec["raw"] = True
-        pool = [None, None, 0, False, "", 1, ["T"], ["Op", 1], ["Op", 2]]
+        pool = [None, None, 0, False, "", 1, ["T"], ["Op", 1], ["Op", 2], ["Aw", 1], ["Aw", 2]]
         srcs = spec["srcs"]
         keep = 1 if name == "compress" else len(srcs)  # the selectors of compress stay numbers
         spec["srcs"] = [[rng.choice(pool) for _ in src] if i < keep else src for i, src in enumerate(srcs)]
@@ -79,7 +79,7 @@ def _iter_spec(rng: random.Random, name: str, maxlen: int = 8) -> dict:
         if name != "map" and rng.random() < 0.2:
             # plain values incl. None / falsy ones: nothing but identity may serve as "no item" marker
             spec["raw"] = True
-            pool = [None, None, 0, False, "", 1, ["T"], ["Op", 1], ["Op", 2]]
+            pool = [None, None, 0, False, "", 1, ["T"], ["Op", 1], ["Op", 2], ["Aw", 1], ["Aw", 2]]
             spec["srcs"] = [[rng.choice(pool) for _ in src] for src in srcs]
         if name == "map":
             spec["fns"] = [rng.choice(["mk", "mk", "mk", "tup", "none_or_item", "falsy_result"])]
@@ -174,6 +174,12 @@ def _iter_spec(rng: random.Random, name: str, maxlen: int = 8) -> dict:
         return {"tool": name, "srcs": [keys_seq(rng, maxlen)], "fns": [], "params": {"args": islice_args(rng)}}
     if name == "pairwise":
         return {"tool": name, "srcs": [keys_seq(rng, maxlen)], "fns": [], "params": {}}
+    if name == "starmap" and rng.random() < 0.15:
+        # argument "tuples" of other kinds: a dict (iterated over its KEYS, like any iterable), a string, a one-shot
+        # iterator, a generator, a list - ``function(*item)`` whatever the item is
+        pool = [["Dc", "a", 1, "b", 2], ["Dc", "x", 1], ["Dc"], ["Dc", 1, 2, 3, 4], "ab", "", ["It", 1, 2], ["Gn", 3],
+                ["L", 1, 2, 3], ["T"], ["T", 0]]
+        return {"tool": name, "raw": True, "srcs": [raw_seq(rng, pool, min(maxlen, 5))], "fns": ["tup"], "params": {}}
     if name == "starmap":
         n = rng.randint(0, min(maxlen, 5))
         return {"tool": name, "srcs": [[[rng.randrange(3) for _ in range(rng.randint(0, 3))] for _ in range(n)]],
